@@ -53,7 +53,7 @@ PROPS = {
                 state=kinds("CX"), effects=eff("ev", "statecb"), errnames=True),
     "C10": dict(profiles=["lifecycle"], monitors=["queues", "lifecycle", "cadence"],
                 state=kinds("CX", "NQ", "XQ", "NH", "XH"), effects=eff("ev"), errnames=False),
-    "C11": dict(profiles=["lifecycle", "mixed"], monitors=["queues", "requests"],
+    "C11": dict(profiles=["lifecycle", "mixed", "genesis"], monitors=["queues", "requests"],
                 state=kinds("CX", "NQ", "XQ", "NH", "XH", "AI", "AB", "RQ"), effects=eff("ev"), errnames=False),
     "C12": dict(profiles=["modules", "lifecycle"], monitors=["counts", "callbacks"],
                 state=kinds("CX", "RQ", "RS"), effects=eff("respcb", "statecb", "ev"), errnames=False),
@@ -63,7 +63,7 @@ PROPS = {
                 state=kinds("B", "PR"), effects=eff("slash"), errnames=True),
     "C15": dict(profiles=["bindings", "authority", "genesis"], monitors=["indexes", "stability", "queryExact"],
                 state=kinds("Q", "D", "B", "OB", "OW", "PO", "PR"), effects=eff(), errnames=True),
-    "C16": dict(profiles=["lifecycle", "mixed"], monitors=["requests", "counts", "lifecycle"],
+    "C16": dict(profiles=["lifecycle", "mixed", "genesis"], monitors=["requests", "counts", "lifecycle"],
                 state=kinds("CX", "RQ", "RS", "AI", "AB"), effects=eff("ev"), errnames=False),
     "C17": dict(profiles=["queries"], monitors=["queryExact"],
                 state=kinds("Q", "D", "B", "WD", "CX", "RQ", "RS", "AB", "EF", "OE"), effects=eff(), errnames=True),
